@@ -46,30 +46,3 @@ LEGS = [
 REGISTERED = True
 
 
-def run(ctx):
-    """standard_run, except that the Coq build is restricted to this property's cone."""
-    import os
-    import core
-    rc, out, dt = core.sh([os.path.join(core.ROOT, "bin", "coqbuild"), "theories/" + PROPERTY_FILE[:-2] + ".vo"], timeout=3300)
-    ctx.proof["build_rc"] = rc
-    ctx.proof["build_s"] = round(dt, 1)
-    ctx.proof["build_target"] = "theories/" + PROPERTY_FILE[:-2] + ".vo (and its dependency cone)"
-    if rc != 0:
-        ctx.proof["build_log_tail"] = out[-3000:]
-    ok_build = rc == 0
-    gate = ctx.gate(PROPERTY_FILE)
-    ctx.proof_obligations(PROPERTY_FILE)
-    ok_pa = ctx.print_assumptions(PROPERTY_FILE) if ok_build else False
-    if not ok_build or gate or not ok_pa:
-        broken = "Coq build" if not ok_build else ("gate: " + "; ".join(gate) if gate else "Print Assumptions of " + PROPERTY_FILE)
-        rp = ctx.write_replay({"broken": "proof obligation: " + broken, "log": out[-4000:]})
-        ctx.violations.append(("proof:" + broken[:80], out[-400:].replace("\n", " | "), rp, True))
-    if ctx.tier == "thorough" and ok_build and not os.environ.get("VERIF_SKIP_COQCHK"):
-        if not ctx.coqchk(PROPERTY_FILE):
-            rp = ctx.write_replay({"broken": "coqchk rejects " + PROPERTY_FILE, "log": ctx.proof.get("coqchk_tail")})
-            ctx.violations.append(("proof:coqchk", "coqchk failed", rp, True))
-    for leg in LEGS:
-        if ctx.replay and ctx.replay.get("leg") and ctx.replay["leg"] != leg["name"]:
-            continue
-        ctx.run_leg(leg)
-    return ctx.finish()
